@@ -11,7 +11,7 @@ import tempfile
 from . import build
 from .facts import Facts
 
-FIELD_TYPES = ["L", "Cc<L>", "Option<Cc<L>>", "Vec<Cc<L>>", "RefCell<Option<Cc<L>>>", "Box<L>", "(L, Cc<L>)", "[Cc<L>; 2]"]
+FIELD_TYPES = ["L", "Cc<L>", "Option<Cc<L>>", "Vec<Cc<L>>", "RefCell<Option<Cc<L>>>", "Box<L>", "(L, Cc<L>)", "[Cc<L>; 2]", "Shadow"]
 
 PRELUDE = """#![allow(dead_code, unused_imports)]
 use rust_cc::*;
@@ -20,6 +20,11 @@ pub struct L(u8);
 unsafe impl Trace for L { fn trace(&self, _: &mut Context<'_>) {} }
 impl Finalize for L {}
 pub struct NoTrace(u8);
+/// a traceable type that also has an *inherent* method called `trace`: generated code must call the trait method
+pub struct Shadow(u8);
+impl Shadow { pub fn trace<V>(&self, _: V) {} pub fn finalize(&self) {} }
+unsafe impl Trace for Shadow { fn trace(&self, _: &mut Context<'_>) {} }
+impl Finalize for Shadow {}
 """
 
 
